@@ -10,6 +10,7 @@ import (
 	"go/types"
 	"os"
 	"path/filepath"
+	"sort"
 	"strings"
 	"text/template/parse"
 	"unicode"
@@ -481,74 +482,163 @@ func checkExportWiring(c *Ctx, tmpls []*tmplInfo) {
 	for _, t := range tmpls {
 		byVar[t.varName] = t
 	}
-	type exec struct {
-		tmplVar string
-		buf     ssa.Value
-		data    string
-		call    *ssa.Call
-	}
-	var execs []exec
-	for _, b := range f.Blocks {
-		for _, in := range b.Instrs {
-			call, ok := in.(*ssa.Call)
-			if !ok {
-				continue
-			}
-			if n := calleeName(call); n != "(*text/template.Template).Execute" {
-				if strings.HasSuffix(n, "template.Template).Execute") || strings.HasSuffix(n, "template.Template).ExecuteTemplate") {
-					c.Violated("T4", fname, "template engine", c.P.ipos(call), "the export is rendered with "+n+", not text/template: values are escaped or rendered differently, ids and tracks are no longer verbatim")
-				}
-				continue
-			}
-			e := exec{call: call}
-			if ld, ok := call.Call.Args[0].(*ssa.UnOp); ok {
-				if g, ok := ld.X.(*ssa.Global); ok {
-					e.tmplVar = g.Name()
+	// template engine: every Execute on a template in the export's region is text/template's
+	region := c.regionOf(f)
+	for _, g := range region {
+		for _, b := range g.Blocks {
+			for _, in := range b.Instrs {
+				if call, ok := in.(*ssa.Call); ok {
+					n := calleeName(call)
+					if n != "(*text/template.Template).Execute" && (strings.HasSuffix(n, "template.Template).Execute") || strings.HasSuffix(n, "template.Template).ExecuteTemplate")) {
+						c.Violated("T4", fname, "template engine", c.P.ipos(call), "the export is rendered with "+n+", not text/template: values are escaped or rendered differently, ids and tracks are no longer verbatim")
+					}
 				}
 			}
-			if mi, ok := call.Call.Args[1].(*ssa.MakeInterface); ok {
-				e.buf = mi.X
-			}
-			if mi, ok := call.Call.Args[2].(*ssa.MakeInterface); ok {
-				e.data = canon(mi.X)
-			}
-			execs = append(execs, e)
 		}
 	}
-	// returned struct: which buffer's Bytes() flows to which field
-	fieldBuf := map[string]ssa.Value{}
-	for _, b := range f.Blocks {
-		for _, in := range b.Instrs {
-			st, ok := in.(*ssa.Store)
+	// which (template, data) pairs can produce the bytes stored into each field: through buffers, phis and helper results
+	type origin struct{ tmplVar, data string }
+	type env struct {
+		m      map[*ssa.Parameter]ssa.Value
+		parent *env
+	}
+	var resolve func(v ssa.Value, e *env, d int) ssa.Value
+	resolve = func(v ssa.Value, e *env, d int) ssa.Value {
+		for d < 6 {
+			prm, ok := v.(*ssa.Parameter)
+			if !ok || e == nil {
+				break
+			}
+			a, ok := e.m[prm]
 			if !ok {
-				continue
+				break
 			}
-			fa, ok := st.Addr.(*ssa.FieldAddr)
-			if !ok || typeName(fa.X.Type()) != "journal.CsvExport" {
-				continue
-			}
-			if call, ok := st.Val.(*ssa.Call); ok && calleeName(call) == "(*bytes.Buffer).Bytes" {
-				fieldBuf[fieldName(fa.X.Type(), fa.Field)] = call.Call.Args[0]
-			}
+			v, e = a, e.parent
+			d++
 		}
+		return v
+	}
+	var origins func(v ssa.Value, e *env, d int) ([]origin, bool)
+	origins = func(v ssa.Value, e *env, d int) ([]origin, bool) {
+		if d > 6 {
+			return nil, false
+		}
+		switch x := v.(type) {
+		case *ssa.Const:
+			if x.Value == nil {
+				return nil, true // nil bytes on an error path
+			}
+			return nil, false
+		case *ssa.Phi:
+			var out []origin
+			for _, ed := range x.Edges {
+				o, ok := origins(ed, e, d+1)
+				if !ok {
+					return nil, false
+				}
+				out = append(out, o...)
+			}
+			return out, true
+		case *ssa.Extract:
+			if call, ok := x.Tuple.(*ssa.Call); ok {
+				return originsOfCall(c, call, x.Index, e, d, origins, func(m map[*ssa.Parameter]ssa.Value) *env { return &env{m, e} })
+			}
+			return nil, false
+		case *ssa.Call:
+			if calleeName(x) == "(*bytes.Buffer).Bytes" {
+				buf := x.Call.Args[0]
+				var out []origin
+				for _, b := range x.Parent().Blocks {
+					for _, in := range b.Instrs {
+						ex, ok := in.(*ssa.Call)
+						if !ok || calleeName(ex) != "(*text/template.Template).Execute" {
+							continue
+						}
+						if mi, ok := ex.Call.Args[1].(*ssa.MakeInterface); !ok || mi.X != buf {
+							continue
+						}
+						o := origin{}
+						if ld, ok := resolve(ex.Call.Args[0], e, 0).(*ssa.UnOp); ok {
+							if g, ok := ld.X.(*ssa.Global); ok {
+								o.tmplVar = g.Name()
+							}
+						}
+						if mi, ok := ex.Call.Args[2].(*ssa.MakeInterface); ok {
+							o.data = canon(resolve(mi.X, e, 0))
+						}
+						out = append(out, o)
+					}
+				}
+				return out, len(out) > 0
+			}
+			return originsOfCall(c, x, 0, e, d, origins, func(m map[*ssa.Parameter]ssa.Value) *env { return &env{m, e} })
+		}
+		return nil, false
 	}
 	want := map[string]string{"TripsCsv": "trips.csv.tmpl", "StopTimesCsv": "stop_times.csv.tmpl"}
-	for field, file := range want {
-		buf := fieldBuf[field]
+	fieldVal := map[string]ssa.Value{}
+	for _, fs := range collectFieldStores(region, "journal.CsvExport") {
+		fieldVal[fs.field] = fs.store.Val
+	}
+	var fields []string
+	for field := range want {
+		fields = append(fields, field)
+	}
+	sort.Strings(fields)
+	for _, field := range fields {
+		file := want[field]
 		ok := false
 		det := "CsvExport." + field + " is not filled from a buffer a template was executed into"
-		for _, e := range execs {
-			if buf != nil && e.buf == buf {
-				ti := byVar[e.tmplVar]
-				if ti != nil && ti.file == file && strings.HasSuffix(e.data, ".Trips)") {
-					ok = true
-				} else if ti != nil {
-					det = fmt.Sprintf("CsvExport.%s is rendered from template %s over %s (expected %s over journal.Trips)", field, ti.file, e.data, file)
+		if v := fieldVal[field]; v != nil {
+			os, resolved := origins(v, nil, 0)
+			if resolved && len(os) > 0 {
+				ok = true
+				for _, o := range os {
+					ti := byVar[o.tmplVar]
+					if ti == nil || ti.file != file || !strings.HasSuffix(o.data, ".Trips)") {
+						ok = false
+						tf := "?"
+						if ti != nil {
+							tf = ti.file
+						}
+						det = fmt.Sprintf("CsvExport.%s is rendered from template %s over %s (expected %s over journal.Trips)", field, tf, o.data, file)
+					}
 				}
 			}
 		}
 		c.Check(ok, "T4", fname, "CsvExport."+field, c.P.pos(f.Pos()), "executes "+file+" over journal.Trips into this field", det)
 	}
+}
+
+// originsOfCall: the origins of result idx of a same-module helper, with the helper's parameters bound to the call's
+// arguments.
+func originsOfCall[O any, E any](c *Ctx, call *ssa.Call, idx int, e E, d int, origins func(ssa.Value, E, int) ([]O, bool), mk func(map[*ssa.Parameter]ssa.Value) E) ([]O, bool) {
+	cal := call.Call.StaticCallee()
+	if cal == nil || call.Call.IsInvoke() || !c.P.isModuleFn(cal) || len(cal.Blocks) == 0 {
+		return nil, false
+	}
+	m := map[*ssa.Parameter]ssa.Value{}
+	for k, a := range call.Call.Args {
+		if k < len(cal.Params) {
+			m[cal.Params[k]] = a
+		}
+	}
+	ne := mk(m)
+	var out []O
+	n := 0
+	for _, b := range cal.Blocks {
+		ret, ok := b.Instrs[len(b.Instrs)-1].(*ssa.Return)
+		if !ok || idx >= len(ret.Results) {
+			continue
+		}
+		n++
+		o, ok := origins(ret.Results[idx], ne, d+1)
+		if !ok {
+			return nil, false
+		}
+		out = append(out, o...)
+	}
+	return out, n > 0
 }
 
 // checkHelpers: nullable helpers return "" exactly on the nil edge; FormatDirectionID is the
